@@ -8,9 +8,16 @@ def run(ctx):
     r = ctx.tlc("grammar-class", "mc/MC_Grammar.tla", "mc/MC_Grammar_class.cfg", {"K": k},
                 min_states=30000, timeout=3000, heap="12g")
     ctx.replay("grammar-class-replay", "grammar", r["dump"], min_cases=30000)
+    # the ladder on operator chains: every pair and triple of binary operators incl. "=" and ","
+    r = ctx.tlc("ladder", "mc/MC_Ladder.tla", "mc/MC_Ladder.cfg", {"Triples": "TRUE"}, min_states=9000)
+    ctx.replay("ladder-replay", "grammar", r["dump"], min_cases=9000)
+    # postfix chains (names, member access, calls, line breaks) deeper than the class alphabet reaches
+    r = ctx.tlc("postfix", "mc/MC_Grammar.tla", "mc/MC_Grammar_postfix.cfg", {"K": 8 if ctx.thorough else 7},
+                min_states=900000, timeout=3000, heap="12g")
+    ctx.replay("postfix-replay", "grammar", r["dump"], min_cases=900000)
     return ctx.finish(
         rule="every token sequence of length <= %d over one representative per parser-equivalence class "
-             "(27 classes + 4 line-break variants), rendered with single spaces / line feeds and parsed by the real "
+             "(27 classes + 4 line-break variants), every a op b op c op d over the 21 operators, every postfix chain of <= 7 tokens, rendered with single spaces / line feeds and parsed by the real "
              "parser; non-trivial = sequences the specification accepts (a tree is compared)" % k,
         assumptions=["one representative lexeme per token class; class partition per DESIGN.md appendix A",
                      "keyword-as-member-name and f(...) are unpinned: only totality is compared there"])
